@@ -601,6 +601,10 @@ def analysis_check(work, pid, level_text):
         df = k2.compare(r['dump'], r['diags'], m, ids)
         if df:
             k2dis.append({'grammar': text, 'what': df[0], 'all': df[:4]})
+    # C14's last clause speaks about the generated loops: its theorem is about Compile.c_recover, tied to the back end by KB
+    kbres = None
+    if pid == 'C14':
+        kbres = kb_only(ck, work, 120 if quick else 3000, max_nodes=400 if quick else 900)
     for f in failures[:3]:
         ck.violation(f['what'], f)
     if not failures:
@@ -609,11 +613,16 @@ def analysis_check(work, pid, level_text):
             broken.append('proof: ' + proof_summary(st))
         if k2dis:
             broken.append('K2 correspondence (Sema.v vs SemanticPass): %d grammars disagree; first: %s' % (len(k2dis), json.dumps(k2dis[0])[:1500]))
+        if kbres and (kbres[2] or kbres[3]):
+            broken.append('KB correspondence (Compile.v vs the program translated from the emitted parser): %d grammars differ, %d emitted parsers not translatable; first: %s' % (len(kbres[2]), kbres[3], json.dumps(kbres[2][:1])[:1500]))
         if broken:
-            ck.violation('; '.join(broken)[:3000], {'broken': broken, 'k2': k2dis[:3]}, no_input=True)
+            ck.violation('; '.join(broken)[:3000], {'broken': broken, 'k2': k2dis[:3], 'kb': (kbres[2][:3] if kbres else [])}, no_input=True)
     nthm = len(st['theorems'])
+    kb_ob = 1 if kbres else 0
+    kb_ok = 1 if kbres and not kbres[2] and not kbres[3] else 0
     ck.cov = {
-        'obligations': nthm + 1, 'discharged': (nthm if not proof_broken(st) else 0) + (0 if k2dis else 1),
+        'obligations': nthm + 1 + kb_ob, 'discharged': (nthm if not proof_broken(st) else 0) + (0 if k2dis else 1) + kb_ok,
+        'kb_backend_model': (None if not kbres else {'grammars_compared_program_equal': kbres[0], 'differ': len(kbres[2]), 'skipped_too_large_or_unresolved': kbres[1], 'not_translatable': kbres[3]}),
         'checker_cmd': 'make -C coq ; coqc -Q . LV Props/%s.v (Print Assumptions parsed) ; source audit grep' % pid,
         'trusted_base': lv.TRUSTED_BASE, 'theorems': st['theorems'], 'explanation': level_text,
         'programs': len(k2_todo), 'disagreements_checked': len(k2_todo), 'k2_disagreements': len(k2dis),
@@ -646,6 +655,39 @@ def independent_usage(g):
         if b is not None:
             visit(b)
     return used
+
+
+def kb_only(ck, work, n_grammars, opts=None, with_repo=True, max_nodes=400):
+    """the back-end tie alone: random accepted grammars (+ the grammars checked into /repo) are emitted by the current
+    back end and translated (no rustc, no runs); Compile.v must produce the same programs.
+    returns (n_equal, n_skipped, diffs, n_untranslatable)"""
+    import kb
+    import rust2cmd
+    gs = [gen_grammar.Gen(ck.rng, opts).grammar() for _ in range(n_grammars)]
+    sub = os.path.join(work, 'kb')
+    os.makedirs(sub, exist_ok=True)
+    items = k3.prepare(sub, gs)
+    if with_repo:
+        files = [os.path.join(lv.REPO, f) for f in REPO_GRAMMARS if os.path.exists(os.path.join(lv.REPO, f))]
+        sub2 = os.path.join(work, 'kbrepo')
+        os.makedirs(sub2, exist_ok=True)
+        texts = [open(f).read() for f in files]
+        items = k3.prepare(sub2, [None] * len(texts), texts) + items
+    acc = [it for it in items if it['res'].get('wrote')]
+    bad = 0
+    for it in acc:
+        try:
+            text = open(os.path.join(it['dir'], 'out', 'generated.rs')).read()
+            pb = lv.ParserBuild()
+            pb.tok_ids = lv.token_ids(it['res']['dump'])
+            pb.tr = rust2cmd.translate(text, pb.tok_ids)
+            pb.sexp = rust2cmd.program_sexp(pb.tr)
+            it['pb'] = pb
+        except rust2cmd.TranslateError as e:
+            it['terror'] = str(e)
+            bad += 1
+    n, skipped, diffs = kb.compare_items(acc, max_nodes=max_nodes)
+    return n - len(diffs), skipped, [{'grammar': it['text'], 'what': d} for it, d in diffs], bad
 
 
 def check_C09(work, args):
